@@ -110,6 +110,8 @@ def probe_perm(ctx, payload):
         c2["teams"] = [[case["teams"][i][j] for j in pj] for i, pj in zip(tp, pp)]
         if case.get("sel"):
             c2["vals"] = [case["vals"][i] for i in tp]
+            if case.get("vals_tags"):
+                c2["vals_tags"] = [case["vals_tags"][i] for i in tp]
         elif tp != list(range(k)):
             c2["sel"], c2["vals"] = "ranks", [list(range(k))[i] for i in tp]
         r2 = run_case(c2)
